@@ -72,6 +72,22 @@ Proof.
 Qed.
 Print Assumptions C05_bfs.
 
+(* Shallower variables win: in every reachable state, whatever is still waiting to be recorded is at least as deep
+   as everything already recorded; so when the budget stops the traversal, a candidate at depth k left out means
+   nothing deeper than k was recorded (the frame's locals, at depth 1, are never crowded out by deeper contents). *)
+Theorem C05_shallower_variables_win :
+  forall c h fuel cs tbl name o n e,
+  let s := run fuel true c h (init cs tbl name o) in
+  In n (queue s) -> In e (log s) -> (snd e <= n_depth n)%nat.
+Proof.
+  intros c h fuel cs tbl name o n e s In_q In_l.
+  destruct (run_layered c h fuel _ (init_layered cs tbl name o)) as (d & A & B & Q & HA & HB & HL & _).
+  fold s in Q, HL. specialize (HL e In_l). rewrite Q in In_q. apply in_app_or in In_q as [I|I].
+  - rewrite (HA n I). exact HL.
+  - rewrite (HB n I). lia.
+Qed.
+Print Assumptions C05_shallower_variables_win.
+
 (* The end-of-list discipline (the code before its repair) violates it: c = [[9;9]], b, a with a
    budget of 3 records the depth-3 element while the depth-1 locals b and a are dropped. *)
 Definition lifo_heap : heap :=
